@@ -70,7 +70,7 @@ Theorem ok_named_entry :
     let d := dispatch fingerprint inames hc_valid steps in
     (forall i c, d s (RAddCluster i c) = (s', Ok) -> clusters s' !! i = Some c)
     /\ (forall i, d s (RRemoveCluster i) = (s', Ok) -> clusters s' !! i = None /\ is_Some (clusters s !! i))
-    /\ (forall k a l, d s (RAddListener k a l) = (s', Ok) -> get_l k s' !! a = Some l /\ get_l k s !! a = None)
+    /\ (forall k a l ok, d s (RAddListener k a l ok) = (s', Ok) -> get_l k s' !! a = Some l /\ get_l k s !! a = None)
     /\ (forall p a k, kind_of p = Some k -> d s (RRemoveListener p a) = (s', Ok) -> get_l k s' !! a = None)
     /\ (forall p a k (v : bool), kind_of p = Some k -> d s (if v then RActivate p a else RDeactivate p a) = (s', Ok) ->
           exists l, get_l k s !! a = Some l /\ get_l k s' !! a = Some (Listener v (l_fields l) (l_rest l)))
@@ -171,7 +171,7 @@ Example err_is_noop_nonvacuous :
   let nm := fun _ : N => @None (list N) in
   let hc := fun _ : N => true in
   let l := Listener false (<["front_timeout"%string := 60]> ∅) 0 in
-  let s := fst (dispatch fp nm hc steps_of empty_state (RAddListener LHttp 0 l)) in
+  let s := fst (dispatch fp nm hc steps_of empty_state (RAddListener LHttp 0 l true)) in
   reachable fp nm hc steps_of s
   /\ s <> empty_state
   /\ dispatch fp nm hc steps_of s
